@@ -84,6 +84,32 @@ func checkC07(c *Ctx, r *Report) {
 				}
 			}
 		}
+		// the $n pattern: a '$' followed by the MAXIMAL run of decimal digits is one reference ($10 is the tenth symbol)
+		patOK, patWhy := false, "no regular-expression replacement of $n in the fragment"
+		walkShape(b.sh, func(x Shape) {
+			rp, ok := x.(*SRepl)
+			if !ok || !rp.IsRegex {
+				return
+			}
+			re, err := regexp.Compile(rp.Old)
+			if err != nil {
+				patWhy = "the $n pattern does not compile"
+				return
+			}
+			patOK, patWhy = true, ""
+			for _, ref := range []string{"$1", "$9", "$10", "$12", "$20", "$100", "$205"} {
+				if got := re.FindString("x = " + ref + " + y"); got != ref {
+					patOK = false
+					patWhy = fmt.Sprintf("the pattern %q reads %q as the reference %q: the rest of the number stays in the action text and another symbol's value is used", rp.Old, ref, got)
+				}
+			}
+			if re.MatchString("$$") || re.MatchString("$x") || re.MatchString("price") {
+				patOK = false
+				patWhy = fmt.Sprintf("the pattern %q also matches text that is not a $n reference", rp.Old)
+			}
+		})
+		r.Check(patOK, "C07.a", "R13 AFFINE", b.name+"/$n-pattern", c.pos(b.pos),
+			"the $n pattern matches '$' followed by the maximal run of digits, evaluated on $1 … $205 (constant pattern, evaluated by the analyser)", patWhy)
 		// d: tag index n − 1 into the same rule's right-hand side
 		dOff := -99
 		sameRule := false
@@ -111,6 +137,24 @@ func checkC07(c *Ctx, r *Report) {
 		}
 		r.Check(iAct >= 0 && iPop > iAct, "C07.b", "R2 ORDER", b.name+"/action-before-pop", c.pos(b.pos),
 			"inside a case the action runs while the right-hand side's entries are still on the stack; the pop follows", "the pop precedes the action text: $n would read entries that are already above the stack pointer")
+	}
+	// a value stays in its stack entry from its push to the reduction that reads it: only pushing (and the
+	// re-initialisation / context restore) writes stack slots — in particular popping only moves the pointer
+	for _, sk := range quickSkeletons(st) {
+		if sk.File == nil || sk.Pkg == nil || len(sk.TypeErs) > 0 {
+			continue
+		}
+		allowed := map[string]bool{"PushStateSym": true, "Context.PushStateSym": true, "ParserInit": true, "Context.ParserInit": true, "PopContex": true}
+		bad := ""
+		ws := stackSlotWriters(sk)
+		for _, w := range ws {
+			if !allowed[w] {
+				bad = w
+			}
+		}
+		r.Check(bad == "", "C07.b", "WHO-WRITES", "skeleton "+sk.V.Name+"/stack-entries-written-only-by-push", sk.pos(token.NoPos),
+			fmt.Sprintf("stack entries are written only by %v: a pushed value is still there when a later reduction reads it as $n", ws),
+			"stack entries are also written by "+bad+" (directly or through a slice / pointer into the stack): values below the reduced handle or the values being reduced can be overwritten before an action reads them")
 	}
 	// $$ starts from the zero value at every reduction: the entry a case fills is freshly allocated, not reused
 	for _, sk := range quickSkeletons(st) {
